@@ -6,7 +6,7 @@ by framework.regenerate_all (every harness/gen_<name>.py) before the Lean build.
 What is generated (model structure `PonyVerif.Model.Tracked.Cfg`):
   listOv / dictOv / arrOv : the mutating methods of list / dict which, looked up along the MRO of the Tracked class,
                             are found in a non-built-in class (`cls.__dict__`, including inherited overrides)
-  makeTuple               : does TrackedValue.make wrap a tuple (probed)
+  tupleMode               : what TrackedValue.make does with a tuple: leave / items (containers among the items wrapped) / list (probed)
   iterUnwrapped           : (method, kind of iterable argument) for which a container element of the iterable is stored
                             as a plain (unwrapped) dict/list (probed on instances bound to a probe object)
   listNotify / ...        : methods whose call on a bound instance reaches obj._attr_changed_ (probed; cross-check only)
@@ -76,9 +76,11 @@ def introspect():
     obj = ProbeObj(); attr = ProbeAttr()
     try:
         made = TrackedValue.make(obj, attr, ({'k': []},))
-        res['makeTuple'] = bool(isinstance(made, TrackedValue) and deep_wrapped(made))
+        if isinstance(made, tuple): res['tupleMode'] = 'items' if deep_wrapped(made) else 'leave'
+        elif isinstance(made, TrackedList) and deep_wrapped(made): res['tupleMode'] = 'list'
+        else: res['errors'].append('make(tuple) returned %r' % type(made).__name__); res['tupleMode'] = 'leave'
     except Exception as e:
-        res['errors'].append('make(tuple): %s: %s' % (type(e).__name__, e)); res['makeTuple'] = False
+        res['errors'].append('make(tuple): %s: %s' % (type(e).__name__, e)); res['tupleMode'] = 'leave'
 
     def elem(): return {'k': []}
     def iterable(kind, pairs):
@@ -158,7 +160,7 @@ def render(f):
              '  listOv := %s,' % lst(f['listOv'], LM),
              '  dictOv := %s,' % lst(f['dictOv'], DM),
              '  arrOv := %s,' % lst(f['arrOv'], LM),
-             '  makeTuple := %s,' % ('true' if f['makeTuple'] else 'false'),
+             '  tupleMode := .%s,' % f['tupleMode'],
              '  iterUnwrapped := [%s],' % ', '.join('(.%s, .%s)' % (m, k) for m, k in f['iterUnwrapped']),
              '  notifyOnError := %s }' % ('true' if f['notifyOnError'] else 'false'),
              '',
